@@ -468,6 +468,9 @@ class Emitter:
                 return k(c[0], c[1], env)
             if segs[0] == "None":
                 return k("None", ("opt", UNKNOWN), env)
+            sc = self.source_const(segs[0])
+            if sc is not None:
+                return self.e_source_const(sc, env, k)
             raise EmitError("unknown name %s" % segs[0])
         if len(segs) >= 2:
             en = self.v.get("enums", {}).get(segs[-2])
@@ -484,7 +487,51 @@ class Emitter:
             c = self.v.get("consts", {}).get(segs[-1])
             if c is not None:
                 return k(c[0], c[1], env)
+            if all(q in ("crate", "self", "super") for q in segs[:-1]):
+                sc = self.source_const(segs[-1])
+                if sc is not None:
+                    return self.e_source_const(sc, env, k)
         raise EmitError("unknown path %s" % "::".join(segs))
+
+    # -- named scalar constants of the source ----------------------------------
+    # A name that is neither a variable nor a vocabulary constant but an item-level `const NAME: <int | bool> = <expr>;`
+    # of the parsed source (or of `inline_sources`) is translated by its VALUE expression, at the declared type, like a
+    # local `const` item (stmts): giving a literal a name (`const FIRST: usize = 16;`) then yields the term the literal
+    # gave, and a constant whose value changes changes the term.  Tables / struct-valued constants are data and stay
+    # with the vocabulary (`consts`); a `static` is never read this way.
+    def source_const(self, name):
+        hits = [it for it in self._all_items() if it.kind == "const" and it.name == name]
+        if len(hits) != 1:
+            return None       # none, or cfg-dependent alternatives: stays an unknown name
+        it = hits[0]
+        if getattr(it, "static", False) or it.val is None or it.ty is None:
+            return None
+        try:
+            ty = self.ty_of_ast(it.ty)
+        except EmitError:
+            return None
+        if ty[0] not in ("int", "bool"):
+            return None
+        return (it, ty)
+
+    def e_source_const(self, sc, env, k):
+        it, ty = sc
+        stack = getattr(self, "const_stack", [])
+        if it.name in stack:
+            raise EmitError("constant %s is defined in terms of itself" % it.name)
+        self.const_stack = stack + [it.name]
+        try:
+            # the value sees no variable of the function it is used in
+            cell = []
+            rest = self.expr(it.val, Env(self), lambda t, vty, _e: cell.append((t, vty)) or "\0", expect=ty)
+        finally:
+            self.const_stack = stack
+        if rest != "\0" or len(cell) != 1:
+            raise EmitError("constant %s: its value is not a plain expression" % it.name)
+        t, vty = cell[0]
+        if vty != ty and vty != UNKNOWN:
+            raise EmitError("constant %s: declared %r, its value is a %r" % (it.name, ty, vty))
+        return k(t, ty, env)
 
     def e_field(self, e, env, k):
         def k1(base, bty, env1):
@@ -2530,13 +2577,41 @@ class Emitter:
         fterm = "(fun %s %s =>\n%s)" % (" ".join(pnames), stpat, ind(body, 4))
         return k(fterm, cap, env)
 
-    def loop_fuel(self):
+    def loop_fuel(self, cond=None, env=None):
         fuels = self.v.get("fuel", {}).get(self.cur_fn, [])
         i = self.loop_idx
         self.loop_idx += 1
         if i >= len(fuels):
+            auto = self.auto_fuel(cond, env) if self.v.get("fuel_auto") else None
+            if auto is not None:
+                return auto
             raise EmitError("while/loop #%d in %s: no fuel expression in the vocabulary" % (i, self.cur_fn))
         return fuels[i]
+
+    def auto_fuel(self, cond, env):
+        """optional vocabulary key `fuel_auto: True`: a `while i < xs.len()` that has no fuel expression in the vocabulary
+        (the loop moved into a helper that is inlined into a function the vocabulary has no entry for) gets one step per
+        entry of `xs` and one for the final test, `(S (length xs))`, when `xs` translates to a plain term.  Fuel is never
+        trusted: a loop that runs out of it answers None, and the proof about the function fails."""
+        if cond is None or env is None or cond.kind != "binary" or cond.op != "<":
+            return None
+        r = cond.r
+        while r.kind == "paren":
+            r = r.e
+        if r.kind != "mcall" or r.name != "len" or r.args:
+            return None
+        cell = []
+        oldpm = self.pure_mode
+        self.pure_mode = 1
+        try:
+            rest = self.expr(r.recv, env, lambda t, ty, _e: cell.append((t, ty)) or "\0")
+        except (EmitError, NeedsBind):
+            return None
+        finally:
+            self.pure_mode = oldpm
+        if rest != "\0" or len(cell) != 1 or cell[0][1][0] != "list":
+            return None
+        return "(S (length %s))" % cell[0][0]
 
     def has_break(self, node):
         """any `break` below `node` (also inside nested loops: a labelled one may leave the outer loop)"""
@@ -2836,7 +2911,7 @@ class Emitter:
         return "let %s := None in\n%s" % (n, self.while_like(None, e.body, env1, after, extra_state=[hv], brk_value=(hv, cell)))
 
     def while_like(self, cond, bodyblk, env, k, extra_state=None, brk_value=None):
-        fuel = self.loop_fuel()
+        fuel = self.loop_fuel(cond, env)
         if callable(fuel):
             fuel = fuel(env)      # a fuel expression over the variables' current Coq names
         rs = bool(self.v.get("loop_ret_state"))   # opt-in: a `return` inside the loop carries the loop variables
